@@ -18,6 +18,7 @@ from hypothesis import strategies as st
 
 from ..engine import snapshot, snapshot_diff, patch_shuffled
 from ..runner import V
+from ..engine import is_engine_exception as _is_engine_exception
 
 import pokerkit
 from pokerkit import (
@@ -68,6 +69,8 @@ def extra(tier, seed, stats):
             try:
                 back = list(Card.parse(repr(c)))
             except Exception as e:  # noqa: BLE001
+                if not _is_engine_exception(e):
+                    raise     # harness fault: exit 2
                 viols.append(V(ID, 'card_text', 'parse_raised',
                                f'Card.parse({repr(c)!r}) raised {e!r}'))
                 continue
@@ -206,6 +209,16 @@ def helper_case(draw):
                 cap=cap)
 
 
+@st.composite
+def hands_case(draw):
+    """Entry points that evaluate cards: the same cards in any documented
+    spelling must give the same hand (or the same refusal)."""
+    from .c05 import c05_case
+    c = draw(c05_case())
+    return dict(kind='hands', cls=c['cls'], hole=c['hole'], board=c['board'],
+                hole_form=c['hole_form'], board_form=c['board_form'])
+
+
 def budget(tier):
     if tier == 'quick':
         return dict(examples=8000, wall=90)
@@ -214,7 +227,7 @@ def budget(tier):
 
 def strategy(tier):
     return st.one_of(layout_case(), cards_case(), invalid_case(),
-                     helper_case())
+                     helper_case(), hands_case())
 
 
 def _state(antes, blinds, stacks, n, bb, seed, autos=FULL):
@@ -243,6 +256,8 @@ def check(case, stats):
                 b = _state(reps['antes'], reps['blinds'], reps['stacks'], n,
                            bb, case['seed'])
             except Exception as e:  # noqa: BLE001
+                if not _is_engine_exception(e):
+                    raise     # harness fault: exit 2
                 return [V(ID, 'equivalent_layout_refused',
                           ','.join(v[0] for v in case['reps'].values()),
                           f'{case["reps"]} raised {e!r} while the explicit'
@@ -361,6 +376,53 @@ def check(case, stats):
                 stats.mark_nontrivial(repr(case))
             stats.sample(dict(cards=cards, form=form, where=where), nt)
             return out
+        if kind == 'hands':
+            from .c04 import as_form
+            cls = getattr(pokerkit, case['cls'])
+            hole, board = case['hole'], case['board']
+            hf, bf = case['hole_form'], case['board_form']
+
+            def call(f, *a):
+                try:
+                    return ('ok', f(*a))
+                except ValueError as e:
+                    return ('refused', type(e).__name__)
+
+            pairs = [
+                ('from_game',
+                 call(cls.from_game, ''.join(hole), ''.join(board)),
+                 call(cls.from_game, as_form(hole, hf), as_form(board, bf))),
+                ('from_game_or_none',
+                 call(cls.from_game_or_none, ''.join(hole), ''.join(board)),
+                 call(cls.from_game_or_none, as_form(hole, hf),
+                      as_form(board, bf))),
+                ('constructor',
+                 call(cls, ''.join(hole + board)),
+                 call(cls, as_form(hole + board, hf))),
+                ('lookup.has_entry',
+                 call(cls.lookup.has_entry, ''.join(hole + board)),
+                 call(cls.lookup.has_entry, as_form(hole + board, bf))),
+            ]
+            for name, a, b in pairs:
+                same = a[0] == b[0] and (
+                    a[0] == 'refused' or a[1] == b[1] and (
+                        not hasattr(a[1], 'cards')
+                        or tuple(a[1].cards) == tuple(b[1].cards)))
+                if not same:
+                    out.append(V(
+                        ID, 'cards_meaning', f'{name}:{hf}/{bf}',
+                        f'{case["cls"]}.{name}: text form gives {a!r}, '
+                        f'{hf}/{bf} form gives {b!r} for hole {hole} board'
+                        f' {board}'))
+                    break
+            stats.count('hands_entry_points')
+            nt = (hf, bf) != ('str', 'str')
+            if nt:
+                stats.count('nontrivial')
+                stats.mark_nontrivial(repr(case))
+            stats.sample(dict(hand_class=case['cls'], hole=hole, board=board,
+                              forms=[hf, bf]), nt)
+            return out
         if kind == 'invalid':
             n, i, x, cls = case['n'], case['i'], case['x'], case['cls']
             antes = [0] * n
@@ -407,6 +469,9 @@ def check(case, stats):
             except ValueError:
                 pass
             except Exception as e:  # noqa: BLE001
+                from ..engine import is_engine_exception
+                if not is_engine_exception(e):
+                    raise           # a fault of this harness, exit 2
                 out.append(V(ID, 'invalid_layout_wrong_exception', cls,
                              f'{cls}: {type(e).__name__}: {e}'))
             else:
@@ -446,6 +511,8 @@ def check(case, stats):
         try:
             raked, unraked = rake(amount, None, **kw)
         except Exception as e:  # noqa: BLE001
+            if not _is_engine_exception(e):
+                raise     # harness fault: exit 2
             return out + [V(ID, 'rake_raised', t, f'{e!r} for {amount} {kw}')]
         if abs(raked + unraked - amount) > tol:
             out.append(V(ID, 'rake_parts', t,
